@@ -79,7 +79,9 @@ TRUSTED_BASE = [
     "extractor (fail closed)",
 ]
 ASSUMPTIONS = [
-    "adapters are the four of ak/conn_http.py (path prefix, basic, client, token) or the harness's TagAdapter; "
+    "adapters are the four of ak/conn_http.py (path prefix, basic, client, token), the harness's TagAdapter or the harness's RouteAdapter "
+    "(rewrites req_args.address for paths starting with a given text; NOT in the model, where it is the no-op `APrefix ''` "
+    "and the url is compared with the routed address put back -- its effect is judged by the oracle clause `url` only); "
     "`adapters` arguments are None, one adapter or a list (tuples raise TypeError in _HttpConnBase.__init__ and are "
     "outside the statement); header names and explicit methods are ASCII; no surrogate code points",
     "add_adapter mutates a connection by design: theorems and oracle say that it changes requests through the connection "
@@ -575,10 +577,17 @@ JSONS = [{}, [], {"arg": 42}, {"a": [1, "é", None, True]}, [1, 2, 3], 0, 5, Fal
          ["\U0001f600"], {"arg": "v"}, [[]], {"": ""}]
 
 
+ROUTE_HOSTS = ["http://mirror.invalid", "https://eu.route.invalid:8443", "http://10.9.9.9:99/m"]
+ROUTE_CONDS = ["", "", "", "/", "/p", "a", "/a", "/api/", "/cmpA", "pre/"]
+
+
 def _adspec(rng, allow_auth=True):
     r = rng.random()
     if r < 0.34:
         return ["prefix", rng.choice(PREFIXES)]
+    if 0.54 <= r < 0.62:
+        # host routing: an adapter of the harness that rewrites req_args.address (for paths starting with `cond`)
+        return ["route", rng.choice(ROUTE_CONDS), rng.choice(ROUTE_HOSTS)]
     if r < 0.62 or not allow_auth:
         return ["tag", rng.choice([97, 98, 99, 100, 101, 233, 122])]
     if r < 0.76:
@@ -991,6 +1000,26 @@ def _impl_run(case):
             resp_log.append(self.k)
             return Marked(self.k, return_value)
 
+    route_log = []      # (address replaced, address set) by the RouteAdapters during the current op
+
+    class RouteAdapter(conn_http.RequestAdapter):
+        """host routing: requests whose path (as the earlier adapters of the chain left it) starts with `cond` go to
+        `host`; the run of trailing slashes of the address it replaces is kept, so that the join of address and path
+        is the same decision as without the adapter (the model does not see this adapter; see `murl`)"""
+        def __init__(self, cond, host):
+            self.cond = cond
+            self.host = host
+
+        def process_req_args(self, req_args):
+            if req_args.path.startswith(self.cond):
+                old = req_args.address
+                new = self.host + "/" * (len(old) - len(old.rstrip("/")))
+                route_log.append((old, new))
+                req_args.address = new
+
+        def mk_descr(self):
+            return f"paths {self.cond!r}* via {self.host}"
+
     class Marked:
         """what TagAdapter.process_response returns: the value it was given, marked with the adapter's tag"""
         def __init__(self, k, v):
@@ -1071,6 +1100,8 @@ def _impl_run(case):
             a = conn_http.ClientAuthConn.Adapter(spec[1], spec[2], spec[3])
         elif t == "token":
             a = conn_http.TokenAuthConn.Adapter(spec[1])
+        elif t == "route":
+            a = RouteAdapter(spec[1], spec[2])
         else:
             a = TagAdapter(spec[1])
         registry[id(a)] = spec
@@ -1188,6 +1219,7 @@ def _impl_run(case):
         for idx, o in enumerate(case["ops"]):
             t = o["o"]
             del captured[:]
+            del route_log[:]
             del resp_log[:]
             del answered[:]
             try:
@@ -1247,7 +1279,14 @@ def _impl_run(case):
                         res = ["sent", len(captured)]
                     else:
                         r = captured[0]
-                        res = ["req", {"url": r.full_url, "method": r.get_method(),
+                        # the url as the model (which has no address-rewriting adapter) is to see it: the address
+                        # a RouteAdapter set, where the url really starts with it, put back; the oracle clause
+                        # `url` judges the host of the url that was really requested
+                        murl = r.full_url
+                        for old, new in reversed(route_log):
+                            if murl.startswith(new):
+                                murl = old + murl[len(new):]
+                        res = ["req", {"url": r.full_url, "murl": murl, "method": r.get_method(),
                                        "headers": [[k, _canon_hval(v)] for k, v in r.headers.items()],
                                        "data": None if r.data is None else list(r.data) if isinstance(r.data, (bytes, bytearray)) else [-1],
                                        "resp": list(resp_log), "ret": canon_ret(ret),
@@ -1279,6 +1318,8 @@ def _c_ad(spec):
         return f"AClient {SX.cstr(spec[1])} {SX.cstr(spec[2])} {SX.cstr(spec[3])}"
     if t == "token":
         return f"AToken {SX.cstr(spec[1])}"
+    if t == "route":
+        return f"APrefix {SX.cstr('')}"       # no effect on path / headers / returned value: the model's no-op adapter
     return f"ATag {SX.cZ(spec[1])}"
 
 
@@ -1397,6 +1438,8 @@ def _sx_ad(spec):
         return [3, SX.s(spec[1])]
     if t == "tag":
         return [4, spec[1]]
+    if t == "route":
+        return [0, SX.s("")]         # as _c_ad
     return [99]
 
 
@@ -1432,7 +1475,7 @@ def _sx_req(r):
             v = [2, []]          # generated id: presence only (the model's HGenId); a caller-supplied id is compared
         hs.append([SX.s(k), v])
     hs.sort(key=lambda kv: kv[0])
-    return [SX.s(r["url"]), SX.s(r["method"]), hs, SX.opt(r["data"]), r["resp"], r.get("ret", [1, SX.s('""')])]
+    return [SX.s(r.get("murl", r["url"])), SX.s(r["method"]), hs, SX.opt(r["data"]), r["resp"], r.get("ret", [1, SX.s('""')])]
 
 
 M63 = (1 << 63) - 1
@@ -1581,17 +1624,22 @@ def oracle(case, obs):
                             f"the opener answered {json.dumps(rs)[:200]}"))
         # path prefixes: inner connections outermost
         path = q["path"]
+        xpath = q["path"]       # the path exactly as the adapters so far left it (what a routing adapter looks at)
+        addr = conn["addr"]
         for a in chain:
             if a[0] == "prefix":
                 path = a[1] + path
+                xpath = a[1] + (xpath[1:] if xpath and xpath.startswith("/") and a[1].endswith("/") else xpath)
+            elif a[0] == "route" and xpath.startswith(a[1]):
+                addr = a[2]     # every adapter is applied: the request goes to the address the LAST routing adapter set
         pobj = objs[q["params"]] if q["params"] is not None else None
         if pobj is not None and pobj["p"]:
             pv = dict((k, v) for k, v in pobj["p"]) if pobj["as"] == "dict" else [(k, v) for k, v in pobj["p"]]
             path += "?" + urlencode(pv)
-        want = _norm_url(conn["addr"] + "/" + path)
+        want = _norm_url(addr + "/" + path)
         have = _norm_url(req["url"])
         if want != have:
-            out.append(("url", f"op #{idx} {what}: url {req['url']!r}, expected {conn['addr']!r} + prefixes of {chain} + {q['path']!r} (+ params) = {want!r}"))
+            out.append(("url", f"op #{idx} {what}: url {req['url']!r}, expected {addr!r} (address {conn['addr']!r} after the routing adapters) + prefixes of {chain} + {q['path']!r} (+ params) = {want!r}"))
         # exactly one Authorization header, from the authenticating layer
         if "authorization" not in low:
             v = got_h.get("Authorization")
